@@ -2,5 +2,5 @@
 
 package fourq
 
-// c14Backend: fp_noasm.go, fq_noasm.go, point_noasm.go are compiled.
-func c14Backend() string { return "generic" }
+// fp_noasm.go, fq_noasm.go, point_noasm.go are compiled.
+func init() { C14ReadBackend = func() string { return "generic" } }
